@@ -12,6 +12,7 @@
 
 mod common;
 mod c02;
+mod c02live;
 mod c03;
 mod c04;
 mod c05;
@@ -87,6 +88,7 @@ fn main() {
     }
     match suite.as_str() {
         "c02" | "c14" => c02::run(&mut ctx),
+        "c02live" => c02live::run(&mut ctx),
         "c03" => c03::run(&mut ctx),
         "c04" => c04::run(&mut ctx),
         "c05" => c05::run(&mut ctx),
